@@ -8,6 +8,7 @@ package webrtc
 
 import (
 	"fmt"
+	"runtime"
 	"sort"
 	"strings"
 	"sync"
@@ -28,7 +29,75 @@ type voBehaviour struct {
 	Waiters []string `json:"waiters"`
 	Closers []string `json:"closers"`
 	Steps   []voStep `json:"steps"`
-	Free    bool     `json:"free"` // free-running stress instead of a schedule
+	Free    bool     `json:"free"`  // free-running stress instead of a schedule
+	Churn   int      `json:"churn"` // > 0: that many producers enqueue tiny operations as fast as they can
+}
+
+// voChurn: producers enqueue trivial operations in a tight loop, so that the worker keeps running dry
+// and handing over while the next Enqueue arrives; no gates, nothing slows the code down. Every
+// accepted operation has to run.
+func voChurn(tr *vkTrace, bh voBehaviour) {
+	tr.Reset(bh.ID)
+	o := newOperations(&atomic.Bool{}, func() {})
+	var ran atomic.Int64
+	each := 4000
+	var wg sync.WaitGroup
+	start := make(chan struct{})
+	for p := 0; p < bh.Churn; p++ {
+		wg.Add(1)
+		go func(p int) {
+			defer wg.Done()
+			rng := vkRand(int64(bh.ID)*31 + int64(p))
+			<-start
+			for i := 0; i < each; i++ {
+				o.Enqueue(func() { ran.Add(1) })
+				for spin := rng.Intn(40); spin > 0; spin-- {
+					_ = spin
+				}
+				if i%64 == 0 {
+					runtime.Gosched()
+				}
+			}
+		}(p)
+	}
+	close(start)
+	wg.Wait()
+	total := int64(bh.Churn * each)
+	end := time.Now().Add(3 * time.Second)
+	for ran.Load() < total && time.Now().Before(end) {
+		time.Sleep(200 * time.Microsecond)
+	}
+	// second phase: an operation that arrives just as the worker runs dry, nothing after it. Under the
+	// queue's lock "operations waiting and no worker" must never be seen (no timing involved).
+	stranded := 0
+	rng := vkRand(int64(bh.ID))
+	for round := 0; round < 6000; round++ {
+		o.Enqueue(func() { ran.Add(1) })
+		for spin := rng.Intn(300); spin > 0; spin-- {
+			_ = spin
+		}
+		o.Enqueue(func() { ran.Add(1) })
+		total += 2
+		for {
+			if ran.Load() >= total {
+				break
+			}
+			o.mu.Lock()
+			waiting, worker := o.ops.Len(), o.busyCh != nil
+			o.mu.Unlock()
+			if waiting > 0 && !worker {
+				stranded++
+				o.Enqueue(func() { ran.Add(1) }) // rescues the queue, so that the run can go on
+				total++
+			}
+			runtime.Gosched()
+		}
+	}
+	o.mu.Lock()
+	qlen, idle := o.ops.Len(), o.busyCh == nil
+	o.mu.Unlock()
+	tr.Emit(vkM{"ev": "churn", "t": bh.ID, "total": int(total), "ran": int(ran.Load()), "qlen": qlen, "idle": idle, "stranded": stranded,
+		"sig": fmt.Sprintf("churn(producers=%d)", bh.Churn)})
 }
 
 type voRun struct {
@@ -136,6 +205,11 @@ func TestVerifOpsQueue(t *testing.T) {
 
 func voBehaviourRun(t *testing.T, tr *vkTrace, bh voBehaviour) bool {
 	t.Helper()
+	if bh.Churn > 0 {
+		verifEventHook, verifYieldHook = nil, nil
+		voChurn(tr, bh)
+		return true
+	}
 	tr.Reset(bh.ID)
 	r := &voRun{tr: tr, id: bh.ID, pending: map[int64]string{}, selfEnq: map[string]bool{}, accepted: map[string]bool{}}
 	for _, s := range bh.SelfEnq {
